@@ -53,7 +53,7 @@ def main(job):
         if 'cex' in found:
             out['cex'] = dict(what=found['cex'][1], schedule=found['cex'][2])
         return out
-    sc = sched.Scenario(hszinc, job.get('threads', 2), job.get('warm', 0), job.get('small_cache', 0))
+    sc = sched.Scenario(hszinc, job.get('threads', 2), job.get('warm', 0), job.get('small_cache', 0), job.get('trace_eval', 0))
     ex = core.Explorer(timeout=job.get('timeout', 300))
     found = {}
     seen = {'n': 0, 'samples': []}
